@@ -71,7 +71,8 @@ func c08kWire(wh *types.WorkObjectHeader) (*types.WorkObjectHeader, error) {
 
 // c08kSeal really mines the base header of the kernel: returns the sealed header.
 func c08kSeal(kernel string) (*types.WorkObjectHeader, error) {
-	hc := core.VerifC08KernelChain()
+	// the search for a nonce asks a FRESH chain object (fresh engines) about every candidate: the
+	// harness' own miner must not depend on the memoisation it is about to examine
 	wh := c08kBase(kernel)
 	target := new(big.Int).Div(common.Big2e256, wh.Difficulty())
 	if kernel == "kawpow" {
@@ -85,7 +86,7 @@ func c08kSeal(kernel string) (*types.WorkObjectHeader, error) {
 		if kernel == "progpow" {
 			cand := types.CopyWorkObjectHeader(wh)
 			cand.SetNonce(types.EncodeNonce(n))
-			mix, pow := hc.GetEngineForHeader(cand).ComputePowLight(cand)
+			mix, pow := core.VerifC08KernelChain().GetEngineForHeader(cand).ComputePowLight(cand)
 			if new(big.Int).SetBytes(pow.Bytes()).Cmp(target) <= 0 {
 				wh.SetNonce(types.EncodeNonce(n))
 				wh.SetMixHash(mix)
@@ -98,7 +99,7 @@ func c08kSeal(kernel string) (*types.WorkObjectHeader, error) {
 		if err != nil {
 			return nil, err
 		}
-		mix, pow := hc.GetEngineForHeader(cand).ComputePowLight(cand)
+		mix, pow := core.VerifC08KernelChain().GetEngineForHeader(cand).ComputePowLight(cand)
 		if new(big.Int).SetBytes(pow.Bytes()).Cmp(target) <= 0 {
 			wh.AuxPow().Header().SetMixHash(mix)
 			return wh, nil
@@ -259,6 +260,117 @@ func c08kRun(sealed map[string]*types.WorkObjectHeader, k c08kCase) (string, str
 	return "", "", fmt.Sprintf("%s:%s:%s=>%s", k.Kernel, k.Variant, k.Ops[len(k.Ops)-1], last)
 }
 
+// c08kPair: two different headers (variants A and B of the sealed header) examined one after the
+// other on ONE chain object: the verdict about B must not depend on A having been examined before
+// ("no accepted seal can be reused for different content" includes reuse through a cache).
+type c08kPairCase struct {
+	Kernel   string `json:"kernel"`
+	VariantA string `json:"variant_a"`
+	OpA      string `json:"op_a"`
+	VariantB string `json:"variant_b"`
+	OpB      string `json:"op_b"`
+}
+
+var c08kPairOpsB = []string{"VerifySeal", "ComputePowHash", "CheckIfValidWorkShare"}
+
+func c08kVariantByName(name string) *c08kVariant {
+	vs := c08kVariants()
+	for i := range vs {
+		if vs[i].Name == name {
+			return &vs[i]
+		}
+	}
+	return nil
+}
+
+func c08kRunPair(sealed map[string]*types.WorkObjectHeader, k c08kPairCase) (string, string, string) {
+	va, vb := c08kVariantByName(k.VariantA), c08kVariantByName(k.VariantB)
+	if va == nil || vb == nil {
+		return "harness", "unknown variant", ""
+	}
+	mk := func(v *c08kVariant) (*types.WorkObjectHeader, error) {
+		base, err := c08kWire(sealed[k.Kernel])
+		if err != nil {
+			return nil, err
+		}
+		v.Apply(base, k.Kernel)
+		return c08kWire(base)
+	}
+	a, err := mk(va)
+	if err != nil {
+		return "harness", "wire: " + err.Error(), ""
+	}
+	b, err := mk(vb)
+	if err != nil {
+		return "harness", "wire: " + err.Error(), ""
+	}
+	hc := core.VerifC08KernelChain()
+	c08kCall(hc, k.OpA, a)
+	got := c08kCall(hc, k.OpB, b)
+	b2, err := mk(vb)
+	if err != nil {
+		return "harness", "wire: " + err.Error(), ""
+	}
+	want := c08kCall(core.VerifC08KernelChain(), k.OpB, b2)
+	if got != want {
+		return fmt.Sprintf("real-kernels:%s:verdict-depends-on-another-header-seen-before:%s-after-%s", k.Kernel, k.OpB, k.OpA),
+			fmt.Sprintf("%s: %s of the header variant %q answers %q on a chain object that has answered %s for the variant %q before; on a fresh chain object it answers %q", k.Kernel, k.OpB, k.VariantB, got, k.OpA, k.VariantA, want), ""
+	}
+	verdict := got
+	if i := strings.Index(verdict, "/"); i >= 0 {
+		verdict = verdict[i+1:]
+	}
+	return "", "", fmt.Sprintf("%s:pair:%s=>%s", k.Kernel, k.OpB, verdict)
+}
+
+func c08RunKernelPairs(c *vx.Ctx, p *vx.Part, sealed map[string]*types.WorkObjectHeader, idx *int64, reported map[string]bool) {
+	vs := c08kVariants()
+	var n int64
+	for _, kn := range []string{"progpow", "kawpow"} {
+		for _, va := range vs {
+			for _, vb := range vs {
+				if va.Name == vb.Name {
+					continue
+				}
+				for _, oa := range c08kOps {
+					for _, ob := range c08kPairOpsB {
+						*idx++
+						n++
+						if !c.Mine(*idx) {
+							continue
+						}
+						if c.Expired() {
+							p.Incomplete("deadline (pairs)")
+							return
+						}
+						k := c08kPairCase{Kernel: kn, VariantA: va.Name, OpA: oa, VariantB: vb.Name, OpB: ob}
+						key, desc, oc := c08kRunPair(sealed, k)
+						if key == "harness" {
+							c.HarnessError("real-kernels: " + desc)
+							return
+						}
+						p.Transitions += 2
+						p.Traces++
+						if key == "" {
+							p.Outcome(oc)
+							continue
+						}
+						p.Outcome(kn + ":pair=>VIOLATION")
+						if reported[key] {
+							continue
+						}
+						reported[key] = true
+						if c.Confirm(desc, func() string { k2, _, _ := c08kRunPair(sealed, k); return k2 }) {
+							c.Violate("real-kernels", key, desc, c08Replay{Part: "real-kernels", KP: &k})
+						}
+					}
+				}
+			}
+		}
+	}
+	p.Bound("pairs_of_different_headers_on_one_chain_object", n)
+}
+
 func c08RunKernels(c *vx.Ctx) {
 	if !c.Wants("real-kernels") {
 		return
@@ -316,6 +428,7 @@ func c08RunKernels(c *vx.Ctx) {
 			}
 		}
 	}
+	c08RunKernelPairs(c, p, sealed, &idx, reported)
 	if c.Shard == 0 {
 		p.States = int64(2 * len(c08kVariants()))
 		p.MaxDepth = int64(depth)
